@@ -100,6 +100,21 @@ STRENGTH = {
  "C19-E": "first detection was counted as a broken correspondence only; a delivered message that differs from the one sent (length, descriptor count, sender-specified credentials) is now a violation with that message as input",
  "C19-F": "first detection had no concrete input; both ends now send and receive at the same time on one Socket value, descriptors checked by identity and position",
  "C20-F": "missed at first; a ledger of every limit written (memory, pids, a cpuset narrower than the parent's) is re-checked after every later operation, e.g. re-opening the group",
+ # fifth round (one change G per property, same rules, told to avoid rounds 1-4)
+ "C02-G": "missed at first; a secondary thread with its own working directory and descriptor table (unshare(CLONE_FS|CLONE_FILES)) now issues cwd- and descriptor-relative calls while the main thread holds another directory under the same descriptor number",
+ "C03-G": "missed at first (programs were traced one at a time); three of four programs are now run while two other traced programs run in the same process, each handler taking a millisecond to decide",
+ "C05-G": "missed at first; mount points inside a writable bind now hold what a previous program may have planted (file, directory, FIFO, absolute/relative/dangling link, link above the mount point) before the sandbox is built; this also exposed two genuine defects of the unchanged tree (open findings mount-point-link-raw / -container)",
+ "C09-G": "missed at first; a container run that leaves children holding memory is now followed at once by the next program, without the host reading the first program's output (which used to wait for the children)",
+ "C11-G": "missed at first; the cancellation sweep now includes programs that hold 16, 150 or 246 MiB under a 256 MiB limit when they are cancelled",
+ "C12-G": "missed at first; builds that are refused at each stage (missing bind source, impossible work directory, failing init command, init that cannot be started) are now followed by the host's child/descriptor baseline",
+ "C13-G": "missed at first; the program that plants the tree now ends in every way a run can end (on its own with either synchronisation, refused by the synchronisation callback after exec while it writes, cancelled) before Reset",
+ "C14-G": "first detection had no concrete input (the regenerated handleOpen no longer matched); batches of 10-120 items with names of 30-240 bytes and 10-100 % failing items are now sent through Open and Symlink",
+ "C15-G": "missed at first; programs now make FIFOs, sockets, directories and links to them and hand them to execve/execveat/open/stat/readlink/access",
+ "C16-G": "first detection had no concrete input (the select without the done alternative); containers that run programs under their own user id and have served file operations before are now killed at the same points",
+ "C17-G": "missed at first; the concurrent rounds now contain launches that their caller refuses at the synchronisation point, eight in a row, among the healthy runs",
+ "C18-G": "missed by inspection: the check was extended on reading the change's description, before its first run (its oracle had taken the resolved name from the library itself): histories now re-point links between checks and the resolution is computed independently",
+ "C19-G": "missed by inspection: the check was extended on reading the change's description, before its first run (it had closed every descriptor right after each receive): messages are now kept and looked at after later receives",
+ "C20-G": "missed at first; groups that already exist in some of the v1 hierarchies only are now opened by New(name), handle.New and handle.Nest and destroyed; what was there before must survive with its limits",
 }
 
 out = []
@@ -161,7 +176,7 @@ for d in sorted(glob.glob(os.path.join(VERIF, "seeded", "C*-*"))):
     if not os.path.isdir(d):
         continue
     letter = os.path.basename(d).split("-")[1][0]
-    grp = {"A": "A/B", "B": "A/B", "C": "C/D", "D": "C/D", "E": "E/F", "F": "E/F"}.get(letter, letter)
+    grp = {"A": "A/B", "B": "A/B", "C": "C/D", "D": "C/D", "E": "E/F", "F": "E/F", "G": "G"}.get(letter, letter)
     f = os.path.join(d, "meta_first_run.json")
     if not os.path.exists(f):
         f = os.path.join(d, "meta.json")
@@ -216,7 +231,7 @@ nth = sum(len(theorems(p)) for p in props.PROPS)
 head = head.replace("24 genuine defects of go-sandbox were found; 20 are repaired by `fix:` commits in /repo, 4 are recorded",
                     "%d genuine defects of go-sandbox were found; %d are repaired by `fix:` commits in /repo, %d are recorded" % (len(fixed) + len(opens), len(fixed), len(opens)))
 nseeded = len([d for d in glob.glob(os.path.join(VERIF, "seeded", "C*-*")) if os.path.isdir(d)])
-head = head.replace("* 40 seeded property-breaking changes (two per property, written by sub-agents that saw only the property\n  text)", "* %d seeded property-breaking changes (two per property in each of four rounds, the later ones\n  written after the checks existed and told to avoid the earlier ideas; all written by sub-agents that saw only the property text)" % nseeded)
+head = head.replace("* 40 seeded property-breaking changes (two per property, written by sub-agents that saw only the property\n  text)", "* %d seeded property-breaking changes (two per property in each of four rounds and one per property in a fifth, the later ones\n  written after the checks existed and told to avoid the earlier ideas; all written by sub-agents that saw only the property text)" % nseeded)
 head = head.replace("all 40 are detected by the check of their property, 9 of them only after the\n  check was strengthened (section 8 says which and how).",
                     "all %d are detected by the check of their property; %d were missed by the version of the check that existed when they\n  were written and %d more were first detected without a concrete failing input — section 8 says which, and how the\n  checks were strengthened (never by telling a check about a particular change)." % (nseeded, len(missed), len(STRENGTH) - len(missed)))
 head = head.replace("* Levels are stated per property", "* %d kernel-checked theorems in the 20 property files.\n* Levels are stated per property" % nth)
